@@ -588,6 +588,16 @@ func boolValueAt(f *ssa.Function, site ssa.Instruction, v ssa.Value, atoms []ato
 						return eval(s, e, d+1)
 					}
 				}
+			case *ssa.BinOp:
+				// equality of two booleans (`aLimited != bLimited`)
+				if y.Op == token.EQL || y.Op == token.NEQ {
+					if bt, isB := y.X.Type().Underlying().(*types.Basic); isB && bt.Info()&types.IsBoolean != 0 {
+						l, r := eval(y.X, e, d+1), eval(y.Y, e, d+1)
+						if l != triUnknown && r != triUnknown {
+							return triOf((l == r) == (y.Op == token.EQL))
+						}
+					}
+				}
 			case *ssa.Call:
 				if d < 8 {
 					t := evalPredicateCall(y, func(v ssa.Value, p *ssa.BasicBlock) tri {
